@@ -912,6 +912,12 @@ theorem list_deepDiff_of_tree (cfg : DCfg) (hp : Diff.Plain cfg) (al : Align) (h
   · rfl
   · simp only [mutualAddRemoves_listT]
 
+theorem list_diffUnmerged_of_tree (cfg : DCfg) (hp : Diff.Plain cfg) (al : Align) (hashOf : PyVal → String) (xs ys : List PyVal)
+    (h : diffV cfg al hashOf [] (.list xs) (.list ys) = ⟨listT 0 xs ys, []⟩) :
+    diffUnmerged cfg al hashOf (.list xs) (.list ys) = ⟨listT 0 xs ys, []⟩ := by
+  unfold diffUnmerged
+  simp only [skipSteps_plain hp, Bool.false_eq_true, if_false, h, keepReported_plain hp]
+
 /-- positional mode -/
 theorem list_diffV_zip (cfg : DCfg) (hp : Diff.Plain cfg) (hz : cfg.zip = true) (al : Align) (hashOf : PyVal → String)
     (xs ys : List PyVal) (hbx : ∀ x ∈ xs, isBasic x = true) :
